@@ -383,6 +383,17 @@ pub fn dec_content(content: &[u8], base: usize, fields: &mut Vec<FieldLoc>, ri: 
 
 /// Strict validator/decoder of a whole .shp.
 pub fn decode(shp: &[u8]) -> Result<DecFile, String> {
+    decode_opts(shp, true)
+}
+
+/// Layout decoder for harness purposes (field offsets, record bounds): like `decode` but record
+/// numbers are not judged, so that a numbering defect is reported by C02 only and does not stop
+/// the families that merely need to know where the records are.
+pub fn decode_layout(shp: &[u8]) -> Result<DecFile, String> {
+    decode_opts(shp, false)
+}
+
+fn decode_opts(shp: &[u8], strict_numbers: bool) -> Result<DecFile, String> {
     if shp.len() < 100 {
         return Err(format!("file of {} bytes, shorter than a header", shp.len()));
     }
@@ -425,7 +436,7 @@ pub fn decode(shp: &[u8]) -> Result<DecFile, String> {
         let words = be32(shp, o + 4);
         fields.push(FieldLoc { id: format!("rec{}.number", ri), off: o, big_endian: true });
         fields.push(FieldLoc { id: format!("rec{}.length", ri), off: o + 4, big_endian: true });
-        if number != ri as i32 + 1 {
+        if strict_numbers && number != ri as i32 + 1 {
             return Err(format!("record {} numbered {}", ri + 1, number));
         }
         if words < 2 {
